@@ -22,7 +22,7 @@ RULE = sqlmon.RULE_HISTORIES + ' Cancellation of arbitrary groups in any order (
 ASSUMPTIONS = sqlmon.COMMON_ASSUMPTIONS
 SHARDS = {'quick': 4, 'thorough': 16}
 TIMEOUT = {'quick': 900, 'thorough': 3600}
-FLOORS = {'scripted_scheduling_passes_after_cancel': 40, 'scripted_additions_after_cancel_attempted': 100, 'scripted_addition_outcomes': 4, 'cancels_applied': 100, 'repeated_cancels_checked': 10, 'is_job_cancelled_probes': 2000, 'submissions_after_cancel_checked': 20,
+FLOORS = {'scripted_cancels_served_inside_a_creation_pass': 8, 'scripted_scheduling_passes_after_cancel': 40, 'scripted_additions_after_cancel_attempted': 100, 'scripted_addition_outcomes': 4, 'cancels_applied': 100, 'repeated_cancels_checked': 10, 'is_job_cancelled_probes': 2000, 'submissions_after_cancel_checked': 20,
           'jobs_under_two_cancelled_groups_probed': 1}
 
 SUBMIT_OPS = ('submit_job_bunch', 'submit_group_bunch', 'create_update', 'resend')
@@ -185,7 +185,45 @@ async def scripted_start_after_cancel(runner, w, fz, rng):
     fz.cfg.update({k: 0 for k in saved})
     fz.fail_next_schedule_db = False
     target = rng.choice([0, 1, 2])
-    if jp:
+    if jp and rng.random() < 0.5:
+        # the cancel lands WHILE the creation pass is under way: at the k-th time the pass asks the pool for a connection (after it
+        # has listed the ready jobs / while the VM is being requested, before mark_job_creating) the cancel request is served
+        import aiomysql
+
+        k, stt = rng.randint(2, 7), {'n': 0, 'ran': False}
+
+        async def delay(site):
+            if site != 'connect' or stt['ran']:
+                return
+            stt['n'] += 1
+            if stt['n'] == k:
+                stt['ran'] = True
+                aiomysql.HOOKS.pop('delay', None)
+                await fe._cancel_job_group(w.fe_app, bid, target)
+                fz.batches[bid]['cancelled'].add(target)
+        aiomysql.HOOKS['delay'] = delay
+        try:
+            await w.jpim.create_instances_loop_body()
+        finally:
+            if aiomysql.HOOKS.get('delay') is delay:
+                aiomysql.HOOKS.pop('delay', None)
+        await fz._drain()
+        if not stt['ran']:
+            await fe._cancel_job_group(w.fe_app, bid, target)
+            fz.batches[bid]['cancelled'].add(target)
+        st = 'Ready-cancel-during-the-creation-pass' if stt['ran'] else 'Ready-cancel-after-a-short-creation-pass'
+        ctx.count('scripted_cancels_served_inside_a_creation_pass', 1 if stt['ran'] else 0)
+        ctx.seen('scripted_cancel_inside_creation_pass_at_connect', k if stt['ran'] else 'not-reached')
+        v1 = View(w.engine).jobs[(bid, 1)]
+        if stt['ran'] and v1['state'] == 'Creating' and v1['attempt_id'] is not None:
+            # (the after-every-commit edge monitor decides whether the move happened after the cancel was committed)
+            ctx.count('scripted_jobs_creating_after_a_creation_pass_with_cancel_inside')
+        for i in sorted(w.jpim.name_instance.values(), key=lambda i: i.name):
+            w.instances.setdefault(i.name, i)
+            if i.state == 'pending':
+                await i.activate('10.9.0.%d' % (1 + len(w.instances)), w.now_ms())
+        await w.jpim.schedule_jobs_loop_body()
+    elif jp:
         await w.jpim.create_instances_loop_body()
         await fz._drain()
         st = View(w.engine).jobs[(bid, 1)]['state']
